@@ -242,7 +242,12 @@ impl Prop for C10 {
         k.stop = rng.chance(1, 2);
         k.max_lines = 3 + rng.usize(18);
         let mut grng = rng.fork();
-        let (lines, info) = Gen::new(&mut grng, k.clone()).program();
+        let (mut lines, info) = Gen::new(&mut grng, k.clone()).program();
+        if rng.chance(1, 12) {
+            // RUN on an empty program still has to reset everything
+            lines.clear();
+            ctx.count("reach.empty_program");
+        }
         let mut history: Vec<Op> = vec![];
         let mut h = HistGen {
             line_nums: lines.iter().map(|l| l.num).collect(),
